@@ -27,11 +27,12 @@ theorem spec_file_append_only (sp : Spec) (op : Op) :
     (specStep sp op).1.fileItems = sp.fileItems ∨
     (∃ it, op = .add it ∧ (specStep sp op).1.fileItems = sp.fileItems ++ [it] ∧
         (specStep sp op).2 = .idx sp.fileItems.length) ∨
-    ((∃ n, op = .create true n) ∧ (specStep sp op).1.fileItems = []) := by
+    ((∃ n, op = .create true n) ∧ (specStep sp op).1.fileItems = []) ∨
+    (op = .save ∧ (specStep sp op).1.fileItems = sp.memItems ∧ (specStep sp op).1.memItems = []) := by
   cases op with
   | create f n =>
     by_cases hf : f = true
-    · right; right; subst hf; exact ⟨⟨n, rfl⟩, by simp [specStep]⟩
+    · right; right; left; subst hf; exact ⟨⟨n, rfl⟩, by simp [specStep]⟩
     · left; simp [specStep, hf, specClose]
   | openRead n => left; simp only [specStep, specClose]; by_cases h : sp.present = true <;> simp [h]
   | openAppend n => left; simp only [specStep, specClose]; by_cases h : sp.present = true <;> simp [h]
@@ -55,6 +56,37 @@ theorem spec_file_append_only (sp : Spec) (op : Op) :
   | iter => left; simp only [specStep]; split <;> rfl
   | sync => left; simp only [specStep]; split <;> (try split) <;> rfl
   | getFlight id => left; simp only [specStep]; split <;> (try split) <;> rfl
+  | save =>
+    simp only [specStep]
+    cases hs : sp.sess with
+    | none => left; rfl
+    | some s =>
+      simp only
+      split
+      · left; rfl
+      · split
+        · left; rfl
+        · split
+          · left; rfl
+          · right; right; right; simp
+
+/-- saving an in-memory store keeps the list a reader sees: the session that was in memory is now file-backed and its
+    visible items are exactly those it held before -/
+theorem spec_save_keeps_list (sp : Spec) (s : SpecSess) (hs : sp.sess = some s)
+    (hok : (specStep sp .save).2 = .ok) :
+    ∃ s', (specStep sp .save).1.sess = some s' ∧ s'.mem = false ∧ (specStep sp .save).1.items s' = sp.items s := by
+  simp only [specStep, hs] at hok ⊢
+  split at hok
+  · cases hok
+  · rename_i hm
+    split at hok
+    · cases hok
+    · split at hok
+      · cases hok
+      · rename_i a b hmi
+        have hm' : s.mem = true := by simpa using hm
+        rename_i hp _
+        simp [hm, hmi, Spec.items, hm', hp]
 
 /-- reading index `i` in the specification is list indexing: the `i`-th item (unless it cannot fit the cache at all),
     out of range beyond the end -/
